@@ -43,6 +43,9 @@ func init() {
 		}
 		return U64s(bitmap.Join(vs, w))
 	}
+	Exec["bitmap.Slice/ToArray"] = func(a []V) string {
+		return I32s(bitmap.ToArray(bitmap.Slice(a[0].U64s(), a[1].I32(), a[2].I32())))
+	}
 }
 
 func genC14Widen(g *Gen) {
@@ -132,5 +135,38 @@ func genC14Widen(g *Gen) {
 		for k := 0; k < g.N(40, 600); k++ {
 			split(g.R.Words(g.R.Range(1, 12)), w, "split-rand")
 		}
+	}
+
+	// (8) ToArray(Slice): all (from,to) over one 2-word bitmap (two in the thorough tier), random ranges over
+	// bitmaps of 1..20 words
+	sta := func(ws []uint64, from, to int, bucket string) {
+		g.Stat(bucket)
+		key := c14SliceKey(ws, from, to)
+		if key != "" {
+			key = "T" + key
+		}
+		g.Do("bitmap.Slice/ToArray", L(U64s(ws), Int(from), Int(to)), key)
+	}
+	two := [][]uint64{{g.R.U64() | 1<<63, g.R.U64() | 1}}
+	if g.Thorough {
+		two = append(two, []uint64{g.R.Word(), g.R.U64()})
+	}
+	for _, ws := range two {
+		for from := 0; from <= 128; from++ {
+			for to := from; to <= 128; to++ {
+				sta(ws, from, to, "slicearr-exh")
+			}
+		}
+	}
+	g.Exhaust = append(g.Exhaust, fmt.Sprintf("ToArray(Slice): all (from,to) over %d bitmaps of 2 words", len(two)))
+	for k := 0; k < g.N(800, 15000); k++ {
+		nw := g.R.Range(1, 20)
+		ws := g.R.Words(nw)
+		from := g.R.Intn(64*nw + 1)
+		to := g.R.Range(from, 64*nw)
+		if g.R.Intn(3) == 0 {
+			to = minInt(64*nw, from+g.R.Intn(130))
+		}
+		sta(ws, from, to, "slicearr-rand")
 	}
 }
